@@ -124,6 +124,7 @@ func TestVerifC22(t *testing.T) {
 	defer tr.Close()
 	r := lib.Rand()
 	n := lib.N(300)
+	vCorpusC22(tr)
 	vC22Model(tr, r, n)
 	vC22AsWritten(t, tr, r, 4*n)
 }
